@@ -591,6 +591,49 @@ def _final_snapshot(w: World):
     return {'events': evs, 'buses': buses}
 
 
+def completion_watch(w: World):
+    """C08 online observer: snapshot of every event when it is first seen complete (status 'completed'
+    and completion signalled), compared again after every later callback of the run."""
+    snaps: dict[str, tuple] = {}
+    flagged: set = set()
+
+    def snap(ev):
+        return (ev.event_status, tuple((hid, r.status, id(r.result) if r.result is not None else None, id(r.error) if r.error is not None else None)
+                                       for hid, r in ev.event_results.items()))
+
+    def watch():
+        for name, ev in w.events.items():
+            sig = ev._event_completed_signal
+            if name not in snaps:
+                if sig is not None and sig.is_set() and ev.event_status == 'completed':
+                    snaps[name] = snap(ev)
+                    w.rec('observed_complete', name, tuple(ev.event_path))
+                continue
+            if name in flagged:
+                continue
+            now = snap(ev)
+            if now != snaps[name] or not sig.is_set():
+                old = snaps[name]
+                what = []
+                if not sig.is_set():
+                    what.append('signal_cleared')
+                if now[0] != 'completed':
+                    what.append('status_' + now[0])
+                old_ids = {x[0]: x for x in old[1]}
+                for x in now[1]:
+                    if x[0] not in old_ids:
+                        r = ev.event_results[x[0]]
+                        what.append('result_added:' + r.eventbus_name)
+                    elif old_ids[x[0]] != x:
+                        what.append('result_changed:' + ev.event_results[x[0]].eventbus_name)
+                if len(now[1]) < len(old[1]):
+                    what.append('result_removed')
+                flagged.add(name)
+                w.rec('changed_after_complete', name, tuple(what))
+
+    return watch
+
+
 def run_scenario(sc: dict, watch_factory=None, keep_world=False):
     """Execute one scenario.  Returns (world, result dict)."""
     bounds = sc.get('bounds', {})
@@ -614,11 +657,14 @@ def run_scenario(sc: dict, watch_factory=None, keep_world=False):
     at_step = {int(k): a for k, a in faults.get('at_step', [])}
     injected: list[asyncio.Task] = []
 
+    last_inj = [None]
+
     def step_hook(k):
         a = at_step.get(k)
         if a is None:
             return
         kind = a[0]
+        last_inj[0] = loop.time()
         if kind == 'stop':
             if a[1] in w.buses:
                 t = loop.create_task(do_stop(w, f'inj{k}', a[1], a[2] if len(a) > 2 else None, False))
@@ -688,6 +734,9 @@ def run_scenario(sc: dict, watch_factory=None, keep_world=False):
         for t in injected:
             if not t.done():
                 await asyncio.wait([t])
+        if at_step:
+            # leave time for the consequences of an injected stop / cancel to show (and to be judged)
+            await asyncio.sleep(1.0)
         w.rec('callers_done')
         if not sc.get('no_final_idle'):
             # settle: repeat passes over all buses until a whole pass saw no new activity
@@ -703,9 +752,26 @@ def run_scenario(sc: dict, watch_factory=None, keep_world=False):
     try:
         loop.run_sim(main())
         res['end'] = 'ok'
+        # an injection may have landed in the very last iteration: always leave >= 1 virtual second after it
+        for _ in range(4):
+            if not at_step or last_inj[0] is None or loop.time() - last_inj[0] >= 1.0:
+                break
+            loop.run_sim(asyncio.sleep(1.0))
     except SimStop as s:
         res['end'] = 'cut:' + s.verdict
         w.rec('cut', s.verdict)
+    except asyncio.CancelledError:
+        # cancel_all fault (what asyncio.run() does at exit): main itself was cancelled.  Give every
+        # cancelled task the chance to finish, then look at who is still alive.
+        res['end'] = 'cancelled_all'
+        w.rec('main_cancelled')
+        try:
+            loop.run_sim(asyncio.sleep(1.0))
+            if last_inj[0] is not None and loop.time() - last_inj[0] < 1.0:
+                loop.run_sim(asyncio.sleep(1.0))
+        except SimStop as s:
+            res['end'] = 'cut:' + s.verdict
+            w.rec('cut', s.verdict)
     except BaseException as e:  # harness error
         import traceback
 
